@@ -54,6 +54,7 @@ var allocFns = map[string]string{
 	dirtFn:              "Bytes",
 	"semtest/ext.Alloc": "Malloc", // func Alloc(size int, capacity ...int) []byte
 	"semtest/ext.Free":  "Free",
+	"semtest/ext.Dirty": "Bytes", // in a method of a struct of csStructs only (elsewhere it is the external x_ext_Dirty)
 }
 
 const (
